@@ -76,7 +76,7 @@ def cmd_check(pid, tier, only=None, selftest=False):
             k = _match_known(pid, _f, v, known)
             return k['id'] if k else None
         rep = X.explore(modname, fam, tier, seed=seed, selftest=selftest, dump_max=dump_max,
-                        classify=classify)
+                        classify=classify, want_digest=getattr(mod, 'WANT_DIGEST', False))
         for kid, cnt in rep['known_hits'].items():
             k = next(k for k in known if k['id'] == kid)
             known_hits.setdefault(kid, [k, 0])[1] += cnt
@@ -101,8 +101,8 @@ def cmd_check(pid, tier, only=None, selftest=False):
             if selftest and v['label'] == 'SELFTEST-unreachable-end':
                 continue
             if not v['reproduced'] and fam.nonrepro == 'inconclusive':
-                inconclusive.append('%s: counterexample for %s exists only under the symbolic '
-                                    'stub, the replay on real objects passes (inputs %s)' % (
+                inconclusive.append('%s: counterexample for %s did not reproduce in the '
+                                    'concrete replay on real objects (inputs %s)' % (
                                         fam.name, v['label'], v['inputs']))
                 continue
             if not v['reproduced']:
@@ -121,6 +121,21 @@ def cmd_check(pid, tier, only=None, selftest=False):
             if not twins or not all(v['reproduced'] for v in twins):
                 harness_errors.append('%s: selftest twin produced no reproduced violation'
                                       % fam.name)
+    post = None
+    if hasattr(mod, 'post_check') and not selftest:
+        post, problems = mod.post_check(pid, tier, reports, seed)
+        for kind, text in problems:
+            if kind == 'violation':
+                path = os.path.join(HERE, 'replays', '%s-postcheck-%d.json' % (
+                    pid, len(new_violations) + 1))
+                json.dump({'property': pid, 'kind': 'post_check', 'tier': tier, 'detail': text,
+                           'family': text.split(':')[0], 'label': 'assertion-mode-differential',
+                           'inputs': {}}, open(path, 'w'), indent=1)
+                new_violations.append((text.split(':')[0], {
+                    'label': 'assertion-mode-differential', 'inputs': {}, 'detail': text,
+                    'reproduced': True}, path))
+            else:
+                harness_errors.append(text)
     wall = _time.perf_counter() - t0
     cvc5 = None
     if tier == 'thorough' and not selftest:
@@ -130,7 +145,7 @@ def cmd_check(pid, tier, only=None, selftest=False):
             harness_errors.append('cvc5 disagrees with z3 on %d queries' % cvc5['disagreements'])
     if not selftest:
         _write_evidence(pid, tier, seed, mod, reports, new_violations, known_hits,
-                        harness_errors, inconclusive, wall, cvc5)
+                        harness_errors, inconclusive, wall, cvc5, post)
     for kid, (k, cnt) in sorted(known_hits.items()):
         print('KNOWN-FINDING: property=%s %s [%s, %d counterexample paths]' % (
             pid, k['text'], kid, cnt))
@@ -158,7 +173,7 @@ def cmd_check(pid, tier, only=None, selftest=False):
 
 
 def _write_evidence(pid, tier, seed, mod, reports, new_violations, known_hits, harness_errors,
-                    inconclusive, wall, cvc5):
+                    inconclusive, wall, cvc5, post=None):
     functions = sorted(set().union(*[r['functions'] for r in reports])) if reports else []
     samples = []
     for r in reports:
@@ -213,6 +228,8 @@ def _write_evidence(pid, tier, seed, mod, reports, new_violations, known_hits, h
             'harness_errors': harness_errors,
             'known_findings_hit': {k: c for k, (_, c) in known_hits.items()},
             'cvc5_crosscheck': cvc5,
+            'post_check': post,
+            'static_scan': getattr(mod, 'static_scan', lambda: None)(),
             'technique': TECHNIQUE,
             'repo_head': _git_head(REPO),
         },
@@ -231,9 +248,32 @@ def _write_evidence(pid, tier, seed, mod, reports, new_violations, known_hits, h
     os.replace(tmp, path)
 
 
+def cmd_digests(pid, tier, out, fams):
+    """explore families and dump {family: {path key: [trace digests]}} (used under python -O)"""
+    from . import explore as X
+    modname = 'sxv.props.%s' % pid.lower()
+    mod = importlib.import_module(modname)
+    res = {}
+    for fam in mod.FAMILIES:
+        if fam.name not in fams or fam.config(tier) is None:
+            continue
+        cfg = dict(fam.tiers[tier])
+        cfg['_validate_every'] = 0
+        fam.tiers[tier] = cfg
+        rep = X.explore(modname, fam, tier, want_digest=True)
+        if not rep['exhaustive']:
+            print('not exhaustive: %s %s' % (fam.name, rep['status']))
+            return 2
+        res[fam.name] = rep['digests']
+    json.dump(res, open(out, 'w'))
+    return 0
+
+
 def cmd_replay(path):
     from .engine import run_concrete, dec_inputs
     d = json.load(open(path))
+    if d.get('kind') == 'post_check':
+        return cmd_check(d['property'], d.get('tier', 'quick'), [d['family']])
     mod = importlib.import_module('sxv.props.%s' % d['property'].lower())
     fam = {f.name: f for f in mod.FAMILIES}[d['family']]
     params, _ = fam.config(d.get('tier', 'quick'))
@@ -261,6 +301,8 @@ def main(argv):
         return cmd_check(pid, tier, only or None, selftest='--selftest' in argv)
     if len(argv) >= 2 and argv[0] == 'selftest':
         return cmd_check(argv[1].upper(), argv[2] if len(argv) > 2 else 'quick', None, True)
+    if len(argv) >= 4 and argv[0] == 'digests':
+        return cmd_digests(argv[1].upper(), argv[2], argv[3], argv[4:])
     if len(argv) == 2 and argv[0] == 'replay':
         return cmd_replay(argv[1])
     print(__doc__)
